@@ -116,7 +116,7 @@ Definition code_matches (r : result) (c : Z) : bool :=
   | ROk n => c =? n
   | RErr => c =? -1
   | RPanic => c =? -2
-  | RNondet => (c =? -1) || (c =? -2)
+  | RNondet => true          (* depends on HashMap order: which entry is taken, or error vs panic *)
   | RUnmodelled => true
   end.
 
